@@ -27,7 +27,7 @@ b = sh("cmake -S %s -B %s/_b -DCMAKE_BUILD_TYPE=RelWithDebInfo -DAMC_ENABLE_BENC
 tests_ok = "100% tests passed" in b.stdout
 ran.append("cmake --build <wt>/_b && ctest: %s" % b.stdout.strip().split("\n")[-1])
 # 3. demo passes on the unchanged library and fails with the change
-flags = "-std=c++17 -O1 -g -fsanitize=address,undefined -fno-sanitize-recover=all -DAMC_NONSTD_FEATURES"
+flags = os.environ.get("SEED_FLAGS") or "-std=c++17 -O1 -g -fsanitize=address,undefined -fno-sanitize-recover=all -DAMC_NONSTD_FEATURES"
 r0 = sh("g++ %s -I/repo/include %s/demo.cpp -o %s/demo_orig && %s/demo_orig" % (flags, out, out, out))
 r1 = sh("g++ %s -I%s/include %s/demo.cpp -o %s/demo_mut && %s/demo_mut" % (flags, wt, out, out, out))
 ran.append("demo on /repo/include: exit %d" % r0.returncode)
